@@ -633,7 +633,7 @@ func concludeWon(want bool) core.Guard {
 		if !ok {
 			return 0
 		}
-		if id, isID := ce.Fun.(*ast.Ident); !isID || id.Name != "conclude" {
+		if !isLocal(u.Info(), ce.Fun, "conclude") { // the closure variable, under whatever name it has today (baseline rename recovery)
 			return 0
 		}
 		if want {
